@@ -13,6 +13,11 @@ PURE_OPS = {"phi", "icmp", "br", "add", "sub", "mul", "shl", "lshr", "and", "or"
             "freeze"}
 
 
+PURE_INTRINSICS = ("llvm.usub.sat.", "llvm.uadd.sat.", "llvm.ssub.sat.", "llvm.sadd.sat.", "llvm.umin.", "llvm.umax.",
+                   "llvm.smin.", "llvm.smax.", "llvm.abs.", "llvm.ctlz.", "llvm.cttz.", "llvm.ctpop.", "llvm.fshl.",
+                   "llvm.fshr.", "llvm.bswap.", "llvm.bitreverse.")
+
+
 def wrappers():
     ws = []
     for rw in ("read", "write"):
@@ -59,6 +64,10 @@ def analyse(m, fname, key, rw, level, line_size):
                         return REFUTED, "cache type operand is %s (instruction cache)" % ct.get("v"), rule, None
                     continue
                 if cal and (cal.startswith("llvm.dbg") or cal.startswith("llvm.lifetime") or cal == "llvm.assume"):
+                    continue
+                if cal and cal.startswith(PURE_INTRINSICS) and i.get("readnone"):
+                    # integer arithmetic the optimiser writes as an intrinsic (a saturating subtraction for
+                    # "remaining -= min(remaining, step)", min/max, bit counts): no memory access, cannot trap
                     continue
                 return REFUTED, "calls %s" % (cal or i.get("asm") or "indirect"), rule, {
                     "note": "a hint function must not call anything that can fault or write"}
@@ -173,6 +182,9 @@ def termination(m, fname, f, insts, key):
                             continue
                         tests.append((c, iv, other, sw, inv))
     if not tests:
+        cd = _countdown(blocks, phis, insts, blk_of)
+        if cd:
+            return HOLDS, cd, None
         return UNDECIDED, "no exit test on the induction variable", None
     SWAP = {"ult": "ugt", "ugt": "ult", "ule": "uge", "uge": "ule", "eq": "eq", "ne": "ne"}
     best = None
@@ -235,6 +247,58 @@ def termination(m, fname, f, insts, key):
     if best:
         return HOLDS, best[0], None
     return UNDECIDED, "no usable exit test", None
+
+
+def _countdown(blocks, phis, insts, blk_of):
+    """the other loop shape: a counter r = phi(start, usub.sat(r, c)) with a positive constant c strictly
+    decreases while it is non-zero and then stays 0, so the loop ends on every input provided its exit test
+    (a comparison of r, or of the decremented value, with a constant) sends the value 0 out of the loop.
+    Every loop header of the function must have such a test; returns the detail string or None."""
+    down = {}
+    for p in phis:
+        for v, blk in p["inc"]:
+            if v["k"] != "i":
+                continue
+            d = insts[v["id"]]
+            if d["op"] == "call" and (d.get("callee") or "").startswith("llvm.usub.sat."):
+                a, b = d["ops"][0], d["ops"][1]
+                if a.get("k") == "i" and a["id"] == p["id"] and b.get("k") == "ci" and 0 < b["v"] < (1 << (b["bits"] - 1)):
+                    down[p["id"]] = (p, b["v"])
+                    down[d["id"]] = (p, b["v"])
+    if not down:
+        return None
+    headers = {blk_of[p["id"]] for p in phis}
+    proved = {}
+    for b in blocks:
+        t = b["insts"][-1]
+        if not (t["op"] == "br" and len([o for o in t["ops"] if o["k"] == "b"]) == 2 and t["ops"][0]["k"] == "i"):
+            continue
+        c = insts[t["ops"][0]["id"]]
+        if c["op"] != "icmp":
+            continue
+        x, y = c["ops"]
+        bl = [o["id"] for o in t["ops"] if o["k"] == "b"]      # [false_dest, true_dest]
+        for cv, other, sw in ((x, y, False), (y, x, True)):
+            if not (cv.get("k") == "i" and cv["id"] in down and other.get("k") == "ci"):
+                continue
+            ph, step = down[cv["id"]]
+            hdr = blk_of[ph["id"]]
+            if b["id"] != hdr:
+                continue            # the test must run on every iteration: it ends the header block itself
+            K = other["v"]
+            w = other["bits"]
+            l, r = (K, 0) if sw else (0, K)
+            sgn = lambda v: v - (1 << w) if v >> (w - 1) else v
+            res = {"eq": l == r, "ne": l != r, "ult": l < r, "ule": l <= r, "ugt": l > r, "uge": l >= r,
+                   "slt": sgn(l) < sgn(r), "sle": sgn(l) <= sgn(r), "sgt": sgn(l) > sgn(r), "sge": sgn(l) >= sgn(r)}.get(c["pred"])
+            if res is None:
+                continue
+            dest = bl[1] if res else bl[0]          # where the branch goes when the counter is 0
+            if dest != hdr:
+                proved[hdr] = "counter decreasing by %d (saturating at 0), exit test `%s %d` leaves the loop at 0" % (step, c["pred"], K)
+    if headers and all(h in proved for h in headers):
+        return "; ".join(sorted(set(proved.values())))
+    return None
 
 
 def run(tier, a=None):
